@@ -1,6 +1,6 @@
 PROPERTY = "C02"
 LEVEL = "proof"
-LEAN_MODULES = ["CifModel.Props.C02", "CifModel.Props.C02Doc", "CifModel.Props.C02Total", "CifModel.Props.C02Column", "CifModel.Props.C02Lines", "CifModel.Props.C02Hyp", "CifModel.Props.ReviewC02"]
+LEAN_MODULES = ["CifModel.Props.C02", "CifModel.Props.C02Doc", "CifModel.Props.C02Total", "CifModel.Props.C02Column", "CifModel.Props.C02Lines", "CifModel.Props.C02Hyp", "CifModel.Props.C02Clean", "CifModel.Props.ReviewC02"]
 REQUIRED = ["CifModel.C02_text_protocol", "CifModel.C02_fold_line_progress", "CifModel.C02_text_total",
             "CifModel.C02_flags_semis", "CifModel.C02_char_text_roundtrip",
             "CifModel.C02_analysis_facts", "CifModel.C02_write_char_text",
@@ -10,10 +10,12 @@ REQUIRED = ["CifModel.C02_text_protocol", "CifModel.C02_fold_line_progress", "Ci
             "CifModel.C02_roundtrip_doc", "CifModel.C02_quoted_status", "CifModel.C02_output_units", "CifModel.C02_roundtrip_doc_instance", "CifModel.C02_roundtrip_doc_sample",
             "CifModel.C02_roundtrip_doc_nested",
             "CifModel.C02_key_refused_iff", "CifModel.C02_key_step_is_the_loop", "CifModel.C02_total_iff",
-            "CifModel.C02_presented_key_writable", "CifModel.C02_refused_key_unwritable_partial",
-            "CifModel.C02_cex_key_first_line", "CifModel.C02_cex_key_first_line_refused", "CifModel.C02_key_boundary",
+            "CifModel.C02_presented_key_writable", "CifModel.C02_refused_key_unwritable",
+            "CifModel.C02_key_first_line_accepted", "CifModel.C02_key_first_line_written", "CifModel.C02_key_boundary",
+            "CifModel.C02_cr_refused", "CifModel.C02_disallowed_char_refused", "CifModel.C02_write_char_opening_tests",
+            "CifModel.C02_success_implies_clean",
             "CifModel.C02_last_column_exact", "CifModel.C02_last_column_exact_doc", "CifModel.C02_lastLineLength_spec",
-            "CifModel.C02_clean_of_line_hypotheses", "CifModel.C02_cex_column_cr", "CifModel.C02_cex_cr_written_raw",
+            "CifModel.C02_clean_of_line_hypotheses", "CifModel.C02_cex_column_cr",
             "CifModel.C02_line_bound_chars", "CifModel.C02_line_hypotheses_chars", "CifModel.C02_charLength_le", "CifModel.C02_cex_line_units",
             "CifModel.C02_roundtrip_doc_nl", "CifModel.C02_line_bound_of_valid",
             "CifModel.C02_cex_hypotheses", "CifModel.C02_empty_loop_refused"]
@@ -34,26 +36,32 @@ ASSUMPTIONS = [
     "'the bytes written are valid UTF-8': the model's output is the sequence of UTF-16 units handed to the UFILE; C02_output_units proves it "
     "well-formed UTF-16 (no unpaired surrogate) of CIF 2.0 characters; the conversion of well-formed UTF-16 to valid UTF-8 is ICU's "
     "(u_fprintf on a UTF-8 UFILE) and is assumed — observed per case: family write decodes the bytes strictly as UTF-8",
-    "strings contain no NUL and, for the round-trip, line-bound and last_column theorems, no CR: a CR is written raw and read back as LF "
-    "(open finding F-cr-altered, C02_cex_cr_written_raw), and cif_analyze_string counts a lone CR as a line terminator where the column "
-    "accounting does not (C02_cex_column_cr)",
+    "strings contain no NUL; the round-trip, line-bound and last_column theorems are stated for CR-free strings (a string with a CR is refused "
+    "by write_char: C02_cr_refused; behind that test cif_analyze_string would count a lone CR as a line terminator where the column "
+    "accounting does not: C02_cex_column_cr)",
     "the order in which the store enumerates blocks, frames, loops, packets and items is an input of the writer model (observed per case)",
     "decode_text is modelled for a scanner without extra whitespace / end-of-line characters",
     "number texts are one line of BMP units (numbOk): true of every number the API parses or formats (ASCII number syntax, C10)",
 ]
 PARTIAL = [
-    "C02_total is now SHARP (C02_total_iff, C02_key_refused_iff): on a writable CIF cif_write (CIF 2.0) succeeds iff every table key the walk meets "
-    "satisfies keyPresented, and returns CIF_DISALLOWED_VALUE iff it meets one that does not; keyPresented is a decidable predicate on the key "
-    "alone (one line: length + 3 <= 2048 with one kind of quote missing, or length + 7 <= 2048 and triple-quotable; several lines: no line > 2048, "
-    "last + 3 < 2048, first + 3 < 2048, triple-quotable) — the column an entry starts in never matters.  It differs from the specification "
-    "keyWritable (what syntax and line limit admit) in ONE place: a multi-line key whose first line has exactly 2045 units is refused although "
-    "writable — open finding F-key-first-line (C02_cex_key_first_line; C02_refused_key_unwritable_partial proves there is no other difference)",
+    "C02_total is SHARP (C02_total_iff, C02_key_refused_iff): on a writable CIF whose strings, number texts and keys are clean (containersClean "
+    "false: no CR, only characters CIF 2.0 allows — the property's own precondition) cif_write (CIF 2.0) succeeds iff every table key the walk "
+    "meets satisfies keyPresented, and returns CIF_DISALLOWED_VALUE iff it meets one that does not; keyPresented is a decidable predicate on "
+    "the key alone (no CR; one line: length + 3 <= 2048 with one kind of quote missing, or length + 7 <= 2048 and triple-quotable; several "
+    "lines: no line > 2048, last + 3 < 2048, first + 3 <= 2048, triple-quotable) — the column an entry starts in never matters — and it "
+    "EQUALS the specification keyWritable (C02_refused_key_unwritable: exactly the keys that cannot be written are refused; the finding "
+    "F-key-first-line is repaired, regression instance C02_key_first_line_accepted / _written)",
+    "clause 1 strengthened (repairs of F-cr-altered, F-disallowed-char-written): write_char refuses a text with a CR (CIF_DISALLOWED_VALUE) and, in "
+    "CIF 2.0 mode, a text with a character cif_has_disallowed_chars rejects (CIF_DISALLOWED_CHAR) before anything else (C02_cr_refused, "
+    "C02_disallowed_char_refused, C02_write_char_opening_tests); hence C02_success_implies_clean: success of cif_write alone implies that every "
+    "string, key and number text that reached write_char is CR-free and of allowed characters.  Not proved: that this (the library's own "
+    "character test) implies okUnits .cif2 of the lexical grammar — they differ in NUL (no C string holds one) and U+FEFF — so cifR's "
+    "character conjunct is still a hypothesis of the round-trip theorems",
     "C02_roundtrip_doc_nl: the whole-document round trip (every policy, frames nested to any depth) needs only cifR (allowed characters, valid "
     "keys, one packet in the scalar loop, unquoted numbers are whitespace-delimited values) and blocksN (valid, pairwise different codes and "
-    "names; loops with header and complete packets) — the line-length hypothesis containersL is derived from them; every remaining conjunct is "
-    "necessary (C02_cex_hypotheses: the re-parse reports an error without it) and is an invariant of CIFs built through the API, except "
-    "'strings of CIF 2.0 characters' and 'no CR', which the API does not enforce for values: open findings F-disallowed-char-written and "
-    "F-cr-altered.  Quoted status as before (C02_quoted_status): exceptions are ';'-led unquoted strings and F-unquoted-overlong.  The "
+    "names; loops with header and complete packets) — the line-length hypothesis containersL is derived from them; every remaining "
+    "structural conjunct is necessary (C02_cex_hypotheses: the re-parse reports an error without it) and is an invariant of CIFs built through "
+    "the API.  Quoted status as before (C02_quoted_status): exceptions are ';'-led unquoted strings and F-unquoted-overlong.  The "
     "unrestricted statement stays visible as C02_roundtrip_doc_full",
     "C02_line_bound_chars: no line of the output has more than 2048 CHARACTERS (units that do not continue a surrogate pair), for codes of <= "
     "2043 and loop-header names of <= 2048 characters (the API's limits), item names of ANY length (the writer tests them itself), strings "
@@ -61,9 +69,9 @@ PARTIAL = [
     "conclusion (C02_cex_line_units: a code of 1022 supplementary characters gives a line of 2049 units, 1027 characters)",
     "C02_last_column_exact: after every writer step (every handler of the walk, every loop over elements / entries / items / packets / header "
     "names / loops / containers, any depth) last_column equals the number of units written since the last line feed, both versions, no "
-    "hypothesis on lengths; needs item names and number texts without LF, strings without NUL / CR (necessary: C02_cex_column_cr); observed on "
-    "the real code by family wstatic (last_column printed after direct calls of write_text / write_char / write_item / write_literal / "
-    "write_uliteral)",
+    "hypothesis on lengths; needs item names and number texts without LF, strings without NUL / CR (the CR hypothesis is now vacuous for "
+    "write_char — such a text is refused — and kept only in the statements; C02_cex_column_cr shows what the core would do); observed on "
+    "the real code by family wstatic",
 ]
 LEVEL_TEXT = ("Proof (partial): the line-folding / text-prefix protocol is proved to be an inverse pair — for every CR-free text and every "
               "combination of the fold and prefix flags decode_text(write_text body) = text (C02_text_protocol), lifted to write_char with the "
@@ -76,7 +84,7 @@ LEVEL_TEXT = ("Proof (partial): the line-folding / text-prefix protocol is prove
               "write -> cif_parse -> compare oracle on the real code.")
 LEVEL_NOTE = ("Whole-document round trip (C02_roundtrip_doc_nl: every policy, save frames nested to any depth, hypotheses cifR and blocksN only — each "
               "necessary: C02_cex_hypotheses), line bound in characters, exact last_column and sharp totality are proved about the models and "
-              "checked per generated case by the implementation-level oracle. Open findings: F-unquoted-overlong, F-key-first-line (a writable "
-              "multi-line key refused), F-cr-altered (CR written raw), F-disallowed-char-written (CIF 2.0 mode does not validate characters). "
+              "checked per generated case by the implementation-level oracle. Open finding: F-unquoted-overlong (F-key-first-line, F-cr-altered, "
+              "F-disallowed-char-written are repaired: the model follows, regression lines in corpus/). "
               "Trusted: Lean kernel, translator, harness/oracle, ICU output conventions, Model/Analyze of group gA.")
 TECHNIQUE = "Lean 4 proof about an executable model of the writer and of decode_text, tied to the sources by translated constants and byte-exact differential execution"
